@@ -243,7 +243,8 @@ PROPS = {
         'rules': ['R-HEADS', 'R-STATE', 'R-ORDERED'],
         'filter': {'R-STATE': both(rule('R-STATE/G1'), site('transformconst', 'transform.negra_mark_heads',
                                                             'transform.mark_heads_by_rules', 'trees')),
-                   'R-ORDERED': both(rule('R-ORDERED/RAW'), site('transform.', 'transformconst.'))},
+                   'R-ORDERED': both(rule('R-ORDERED/RAW'), site('transform.negra_mark_heads',
+                                                                 'transform.mark_heads_by_rules', 'transformconst.'))},
         'explanation': 'Decides: the category list of a head rule is only measured or split (never iterated by '
                        'character); every loop can reach its next iteration and both directions have the same exits; '
                        'returned positions are child indices; categories compared lower-case and undecorated; both '
@@ -306,8 +307,9 @@ for _p in PROPS.values():
     _p.setdefault('filter', {})
     _p['assumptions'] = list(COMMON_ASSUMPTIONS)
 
-# minimum number of obligations per (property, rule): about 80% of what was confirmed by hand on the tree the
-# checker was built for; a lower count with no violation means an anchor vanished (exit 2)
+# minimum number of obligations per (property, rule): half of what was confirmed by hand on the tree the checker
+# was built for (rules additionally check their own anchors); a lower count with no violation means an anchor
+# vanished (exit 2).  Lint-like rules whose expected count is zero have floor 0 and are exercised by fixtures.
 import json as _json
 import os as _os
 FLOORS = {}
